@@ -1,0 +1,135 @@
+//go:build verif
+
+package server
+
+// Hooks of the WHERE "<expr>" check (C12): in-package access to
+// whereT.matchExpr, to the expression pool (the tile38 extender of
+// github.com/tidwall/expr) and to detectExprToken.
+
+import (
+	"fmt"
+	"math"
+	"strconv"
+	"sync"
+
+	"github.com/tidwall/expr"
+	"github.com/tidwall/gjson"
+	"github.com/tidwall/tile38/internal/object"
+)
+
+var verifExprOnce sync.Once
+var verifExprServer *Server
+
+func verifExprSrv() *Server {
+	verifExprOnce.Do(func() {
+		s := &Server{}
+		s.epool = newExprPool(s)
+		verifExprServer = s
+	})
+	return verifExprServer
+}
+
+// VerifWhereExprMatch is what scanWriter.fieldMatch computes for one
+// `WHERE "<expr>"` clause on the object o.
+func VerifWhereExprMatch(e string, o *object.Object) bool {
+	return whereT{name: e, expr: true}.matchExpr(verifExprSrv(), o)
+}
+
+func verifHex(s string) string {
+	if s == "" {
+		return "-"
+	}
+	return fmt.Sprintf("%x", s)
+}
+
+func verifExprValue(v expr.Value) string {
+	if v.IsUndefined() {
+		return "U"
+	}
+	if v.IsNull() {
+		return "N"
+	}
+	if v.IsArray() {
+		out := "A" + strconv.Itoa(v.Len())
+		for _, x := range v.Array() {
+			out += ":" + verifHex(x.String())
+		}
+		return out
+	}
+	if v.TypeOf() == "function" {
+		// Value.Value() is nil for functions; "[Function: name]"
+		s := v.String()
+		return "C" + verifHex(s[len("[Function: "):len(s)-1])
+	}
+	switch x := v.Value().(type) {
+	case bool:
+		if x {
+			return "B1"
+		}
+		return "B0"
+	case float64:
+		if math.IsNaN(x) {
+			return "Fnan"
+		}
+		return "F" + strconv.FormatUint(math.Float64bits(x), 10)
+	case int64:
+		return "I" + strconv.FormatInt(x, 10)
+	case uint64:
+		return "W" + strconv.FormatUint(x, 10)
+	case string:
+		return "S" + verifHex(x)
+	case *object.Object:
+		return "OT"
+	case gjson.Result:
+		return "OJ" + verifHex(x.Raw)
+	default:
+		return fmt.Sprintf("?%T", x)
+	}
+}
+
+// VerifWhereExprEval runs expr.Eval with the server's context (as matchExpr
+// does) and returns the value in a canonical spelling, the error text ("" when
+// there was none) and Value.Bool() of the result.
+func VerifWhereExprEval(e string, o *object.Object) (val string, errText string, truth bool) {
+	s := verifExprSrv()
+	ctx := s.epool.Get(o)
+	res, err := expr.Eval(e, ctx)
+	s.epool.Put(ctx)
+	if err != nil {
+		errText = err.Error()
+		if errText == "" {
+			errText = "error"
+		}
+	}
+	return verifExprValue(res), errText, res.Bool()
+}
+
+// VerifDetectExprToken calls detectExprToken on the tokens that follow WHERE.
+func VerifDetectExprToken(vs []string) (isExpr bool, panicked string) {
+	defer func() {
+		if r := recover(); r != nil {
+			panicked = fmt.Sprint(r)
+		}
+	}()
+	return detectExprToken(vs), ""
+}
+
+// VerifResultToValue is resultToValue(gjson.Parse(raw).Get(path)) in the
+// canonical spelling (the JSON member access of the extender's ref function).
+func VerifResultToValue(raw, path string) string {
+	return verifExprValue(resultToValue(gjson.Parse(raw).Get(path)))
+}
+
+// VerifFtoa / VerifFtoi reach conv.Ftoa / conv.Ftoi through expr.Value
+// (Value.String() and Value.Int64() of a float64 value are those functions).
+func VerifFtoa(f float64) string { return expr.Float64(f).String() }
+func VerifFtoi(f float64) int64  { return expr.Float64(f).Int64() }
+
+// VerifMembersGet is the first lookup of objExpr: gjson.Get(o.Geo().Members(), ident).
+func VerifMembersGet(o *object.Object, ident string) (exists bool, val string) {
+	r := gjson.Get(o.Geo().Members(), ident)
+	if !r.Exists() {
+		return false, ""
+	}
+	return true, verifExprValue(resultToValue(r))
+}
